@@ -265,6 +265,89 @@ def run_one(ld, L, prog, law, qname, res):
                     'both_sides_iterate_to': it[0][:5]})
 
 
+LARGE_N = {'quick': ((255, 256, 257, 300, 1000), (65537, 70001)),
+           'thorough': ((127, 128, 129, 255, 256, 257, 300, 511, 1000, 4097),
+                        (32769, 65535, 65536, 65537, 70001, 131073))}
+LARGE_BASES = {
+    'dict': lambda ld, n: ld.new({f'k{i}': i for i in range(n)}),
+    'list': lambda ld, n: ld.new(list(range(n))),
+    'dict.batch(4)': lambda ld, n: ld.new({f'k{i}': i for i in range(n)}).batch(4),
+    'list.batch(2)': lambda ld, n: ld.new(list(range(n))).batch(2),
+    'list.map(g)': lambda ld, n: ld.new(list(range(n))).map(G),
+    'dict[::-1]': lambda ld, n: ld.new({f'k{i}': i for i in range(n)})[::-1],
+    'list.batch(3)[1:]': lambda ld, n: ld.new(list(range(n))).batch(3)[1:],
+}
+
+
+def run_large(spec, res):
+    """The same laws on datasets of several hundred to ~10^5 examples (sizes
+    around the powers of two at which index representations change): both
+    sides are iterated completely and compared element by element."""
+    ld = import_lazy_dataset()
+    L = laws(ld)
+    rng = rng_for(spec['seed'], PROPERTY, spec['name'])
+    names = sorted(L)
+    small, huge = LARGE_N[spec['tier']]
+    plan = []
+    for n in small:
+        for bname in LARGE_BASES:
+            for law in rng.sample(names, spec['laws_small']):
+                plan.append((n, bname, law))
+    cheap = [x for x in names if x.startswith(('slice-compose', 'concat-split', 'map-slice',
+                                               'batch', 'tile2', 'indexlist'))]
+    for n in huge:
+        for bname in ('list.batch(2)', 'dict.batch(4)', 'list', 'list.batch(3)[1:]'):
+            for law in rng.sample(cheap, spec['laws_huge']):
+                plan.append((n, bname, law))
+    for j, (n, bname, law) in enumerate(plan):
+        if j % spec['mod'] != spec['rem']:
+            continue
+        case = {'large': True, 'n': n, 'base': bname, 'law': law}
+        lhs, rhs = L[law]
+        sides = []
+        for side in (lhs, rhs):
+            try:
+                d = side(LARGE_BASES[bname](ld, n))
+                sides.append((list(d), ob.guarded(lambda: len(d)),
+                              [ob.guarded(lambda: d[i]) for i in (0, -1, 255, 256, -257)]
+                              if ob.guarded(lambda: d.indexable) is True else None))
+            except Inapplicable:
+                sides = None
+                break
+            except BaseException as e:
+                sides.append(('!', type(e).__name__))
+        if sides is None:
+            res.count('law_not_applicable')
+            continue
+        if any(is_err(x) for x in sides):
+            res.count('both_sides_refuse' if all(is_err(x) for x in sides)
+                      else 'one_side_refuses')
+            continue
+        a, b = sides
+        res.case(('large', n, bname, law), len(a[0]) >= 1)
+        res.count('law_instances_compared')
+        res.count('large_law_instances_compared')
+        res.maximum('largest_dataset_compared', n)
+        res.seen('laws', law.rsplit('-', 1)[0] if law[-1].isdigit() else law)
+        family = law.rsplit('-', 1)[0] if law[-1].isdigit() else law
+        if a[0] != b[0]:
+            k = next((i for i, (x, y) in enumerate(zip(a[0], b[0])) if x != y),
+                     min(len(a[0]), len(b[0])))
+            res.violation('law-violated', case,
+                          {'aspect': 'iter1', 'first_difference_at': k,
+                           'lhs': repr(a[0][k:k + 3]), 'rhs': repr(b[0][k:k + 3]),
+                           'lengths': [len(a[0]), len(b[0])]},
+                          sig={'law': family, 'aspect': 'iter1', 'large': True})
+        elif not is_err(a[1]) and not is_err(b[1]) and a[1] != b[1]:
+            res.violation('law-violated', case, {'aspect': 'len', 'lhs': a[1], 'rhs': b[1]},
+                          sig={'law': family, 'aspect': 'len', 'large': True})
+        elif a[2] is not None and b[2] is not None and any(
+                not is_err(x) and not is_err(y) and x != y for x, y in zip(a[2], b[2])):
+            res.violation('law-violated', case,
+                          {'aspect': 'get', 'lhs': repr(a[2])[:300], 'rhs': repr(b[2])[:300]},
+                          sig={'law': family, 'aspect': 'get', 'large': True})
+
+
 def candidates(spec):
     if spec['what'] == 'exh':
         cnt = 0
@@ -288,10 +371,17 @@ def shards(tier, seed):
     for j in range(2):
         out.append({'name': f'rand{j}', 'what': 'rand', 'count': lim['nrand'] // 2,
                     'nq': lim['nq'], 'nlaws': lim['nlaws']})
+    JL = 6
+    for j in range(JL):
+        out.append({'name': f'large{j}', 'what': 'large', 'mod': JL, 'rem': j,
+                    'laws_small': 40 if tier == 'quick' else 150,
+                    'laws_huge': 10 if tier == 'quick' else 40})
     return out
 
 
 def run_shard(spec, res):
+    if spec['what'] == 'large':
+        return run_large(spec, res)
     ld = import_lazy_dataset()
     L = laws(ld)
     names = sorted(L)
@@ -318,4 +408,13 @@ def finalize(res, tier):
 
 def replay(case, res):
     ld = import_lazy_dataset()
+    if case.get('large'):
+        L = laws(ld)
+        lhs, rhs = L[case['law']]
+        a = list(lhs(LARGE_BASES[case['base']](ld, case['n'])))
+        b = list(rhs(LARGE_BASES[case['base']](ld, case['n'])))
+        if a != b:
+            res.violation('law-violated', case, {'aspect': 'iter1'},
+                          sig={'law': case['law'], 'aspect': 'iter1', 'large': True})
+        return
     run_one(ld, laws(ld), fix_prog(case['prefix']), case['law'], case['continuation'], res)
